@@ -1140,6 +1140,12 @@ func Run(c *hx.Ctx) {
 		runHistory(c, h)
 		c.Count("stream=corpus")
 	}
+	// one multi-address RemoveClusterHosts / TriggerHostDel call per case (rm.go)
+	if c.Thorough() {
+		runRmAll(c, 6, 0)
+	} else {
+		runRmAll(c, 4, 300)
+	}
 	for round := 0; round < c.N(3, 10); round++ {
 		runConcurrent(c, round)
 	}
